@@ -1,7 +1,10 @@
 #include <unistd.h>
 
 #include <atomic>
+#include <boost/asio/post.hpp>
+
 #include <chrono>
+#include <functional>
 #include <queue>
 #include <sstream>
 
@@ -24,7 +27,10 @@ std::string Action::str() const {
     static const char* n[] = {"run", "publish", "subscribe", "unsubscribe", "cancel", "disconnect", "destroy", "signal",
                               "broker_publish", "net_kill", "spurious_ack", "hostile_bytes", "set_silent", "custom"};
     std::ostringstream o;
-    if (idle_index >= 0) o << "@idle#" << idle_index << " "; else o << "@" << at / 1e9 << "s ";
+    if (chained) o << "+chained ";
+    else if (handler_index >= 0) o << "@handler#" << handler_index << " ";
+    else if (idle_index >= 0) o << "@idle#" << idle_index << " "; else o << "@" << at / 1e9 << "s ";
+    if (in_handler) o << "[in-handler] ";
     o << n[kind];
     switch (kind) {
         case publish: case broker_publish: o << " qos=" << qos << (retain ? " retain" : "") << " topic=" << topic << " payload[" << payload.size() << "] props=" << ref::props_str(props); break;
@@ -74,6 +80,8 @@ struct App : AppSink {
     bool expect_drain = false;      // the driver must check ioc.stopped() at the next idle point
     bool running = false;
     int disconnect_op = -1;
+    int last_run_incarnation = -1;
+    std::map<int, int> disconnect_incarnation;
 
     App(World& w, Broker& b, const Scenario& sc, Run& run, asio::io_context& ioc) : w(w), b(b), sc(sc), run(run), cl(make_client(ioc, *this)) {}
 
@@ -115,7 +123,12 @@ struct App : AppSink {
         // keep one receive armed; operations issued after the terminal call would belong to the next incarnation
         if (sc.auto_receive && !terminal && cl && cl->alive() && ec != asio::error::operation_aborted) arm_receive();
     }
-    void on_disconnect_done(int op, error_code ec) override { done(op, ec); expect_drain = true; running = false; }
+    void on_disconnect_done(int op, error_code ec) override {
+        done(op, ec);
+        // a run started after this disconnect was initiated belongs to the next incarnation and keeps working
+        bool newer_run = last_run_incarnation > disconnect_incarnation[op];
+        if (!newer_run) { expect_drain = true; running = false; }
+    }
 
     void arm_receive() {
         auto& r = new_op(OpKind::recv);
@@ -129,7 +142,7 @@ struct App : AppSink {
                 if (!cl->alive()) break;
                 if (running) { w.log(Ev::note, -1, -1, 0, "script: async_run skipped, the client is already running"); break; }
                 auto& r = new_op(OpKind::run); op = r.id;
-                terminal = false; running = true;
+                terminal = false; running = true; last_run_incarnation = incarnation; expect_drain = false;
                 ++depth; cl->async_run(r.id, a.with_slot); --depth;
                 if (sc.auto_receive) arm_receive();
                 break;
@@ -179,6 +192,7 @@ struct App : AppSink {
                 auto& r = new_op(OpKind::disconnect); op = r.id; disconnect_op = op;
                 r.disc_rc = a.rc; r.props = a.props; r.immediate_expected = a.expect_immediate; r.expect_ec = a.expect_ec;
                 w.log(Ev::terminal, op, 1, 0, "async_disconnect");
+                disconnect_incarnation[op] = incarnation;
                 terminal = true; w.terminal_called = true; ++incarnation;
                 mq::disconnect_props dp; l2r::from_ref(a.props, dp);
                 ++depth; cl->disconnect(op, a.rc, dp, a.with_slot); --depth;
@@ -251,16 +265,27 @@ std::unique_ptr<Execution> execute(const Scenario& sc) {
     auto* app = new App(w, br, sc, run, *ioc);
     app->cl->configure(sc.ccfg);
 
-    std::map<int, std::vector<size_t>> idle_actions;
+    // runs script entry i and the entries chained to it; in_handler entries are executed from a posted handler
+    std::function<void(size_t)> run_entry = [app, &run, &sc, ioc, &run_entry](size_t i) {
+        auto go = [app, &run, &sc, i] {
+            run.script_op[i] = app->exec(sc.script[i]);
+            for (size_t k = i + 1; k < sc.script.size() && sc.script[k].chained; ++k) run.script_op[k] = app->exec(sc.script[k]);
+        };
+        if (sc.script[i].in_handler) asio::post(*ioc, go); else go();
+    };
+    std::map<int, std::vector<size_t>> idle_actions, handler_actions;
     for (size_t i = 0; i < sc.script.size(); ++i) {
         const Action& a = sc.script[i];
-        if (a.idle_index >= 0) idle_actions[a.idle_index].push_back(i);
-        else w.at(a.at, [app, &run, &sc, i] { run.script_op[i] = app->exec(sc.script[i]); });
+        if (a.chained) continue;
+        if (a.handler_index >= 0) handler_actions[a.handler_index].push_back(i);
+        else if (a.idle_index >= 0) idle_actions[a.idle_index].push_back(i);
+        else w.at(a.at, [&run_entry, i] { run_entry(i); });
     }
 
     RunOutcome& out = run.out;
     const uint64_t step_cap_instant = 2000000, step_cap_total = 30000000;
     uint64_t total = 0;
+    bool main_phase = true;
     auto drain = [&]() -> bool {   // runs ready handlers; false on exception / livelock
         uint64_t n = 0;
         try {
@@ -268,6 +293,17 @@ std::unique_ptr<Execution> execute(const Scenario& sc) {
                 if (ioc->stopped()) ioc->restart();
                 std::size_t k = ioc->poll_one();
                 if (!k) break;
+                if (main_phase) {
+                    ++out.handler_boundaries;
+                    auto ha = handler_actions.find((int)out.handler_boundaries);
+                    if (ha != handler_actions.end()) {
+                        // between two handlers, with whatever else is already queued: where a cancel() issued by
+                        // some other handler of the application would land
+                        w.log(Ev::note, (int)out.handler_boundaries, -1, 0, "script action between handlers");
+                        for (size_t i : ha->second) run_entry(i);
+                        handler_actions.erase(ha);
+                    }
+                }
                 if (++n > step_cap_instant || ++total > step_cap_total) { out.hang = true; w.log(Ev::hang, -1, -1, (int64_t)n, "handler livelock at one virtual instant"); return false; }
             }
         } catch (const std::exception& e) {
@@ -315,7 +351,7 @@ std::unique_ptr<Execution> execute(const Scenario& sc) {
         auto ia = idle_actions.find((int)out.idle_points);
         if (ia != idle_actions.end()) {
             w.log(Ev::idle, (int)out.idle_points);
-            for (size_t i : ia->second) run.script_op[i] = app->exec(sc.script[i]);
+            for (size_t i : ia->second) run_entry(i);
             idle_actions.erase(ia);
             continue;
         }
@@ -351,6 +387,7 @@ std::unique_ptr<Execution> execute(const Scenario& sc) {
     if (verif::g_now_ns < sc.end && ok) verif::g_now_ns = sc.end;
     out.t_end = verif::g_now_ns;
 
+    main_phase = false;
     // final phase: cancel + destroy, then the context must run out of work without the clock advancing
     if (ok && sc.final_cancel) {
         w.log(Ev::note, -1, -1, 0, "final phase");
